@@ -106,13 +106,14 @@ pub fn classify_iccma(bytes: &[u8]) -> Zone {
             blank_seen = true;
             continue;
         }
+        let toks = match clean_tokens(line) {
+            Some(t) => t,
+            // e.g. a lone CR (the second half of a CRLF line end): whether this is content is unspecified
+            None => return Zone::Unspecified("irregular whitespace or characters"),
+        };
         if blank_seen {
             return Zone::Reject("content after a blank line");
         }
-        let toks = match clean_tokens(line) {
-            Some(t) => t,
-            None => return Zone::Unspecified("irregular whitespace or characters"),
-        };
         match n {
             None => {
                 if toks.len() == 3 && toks[0] == "p" && toks[1] == "af" {
